@@ -16,7 +16,7 @@ func init() {
 		explanation: "Decided (structural, for every query tree): " +
 			"C10.exhaustive — the formatter's switch over the expression oneof has a case for every wrapper type, and each case formats that wrapper's own member; " +
 			"C10.parens — the parenthesisation table required by the parser (operands of '&', '|' and '^' are parsed by the simple-expression function, which yields AND/OR only through a parenthesised group — re-checked on the parser on every run) is T[NOT] ⊇ {AND, OR}, T[AND] ⊇ {OR}, T[OR] ⊇ {AND}; each operator formatter is symbolically executed once per assumed operand kind (getter/type tests on the operand resolved by the assumption, all other branches explored both ways): on every path each recursive formatting call for a kind in the table is immediately preceded by a write containing '(' and followed by one containing ')', and for other kinds writes are balanced; " +
-			"C10.quote — the formatter doubles quotes with ReplaceAll(s, `\"`, `\"\"`) and wraps in `\"%s\"`, the parser's decoder undoes it with the swapped constants; comparison and placeholder formats are `%s = %s` / `%s = $%d` with the value passed through the quoting function; the group-by list is joined by ',' after ';'. " +
+			"C10.quote — the formatter doubles quotes with ReplaceAll(s, `\"`, `\"\"`) and wraps in `\"%s\"`, the parser's decoder undoes it with the swapped constants; C10.unquote — the decoder removes exactly one delimiter at each end (only s[1:], s[:len-1], TrimPrefix/TrimSuffix of one quote) before undoing the doubling; comparison and placeholder formats are `%s = %s` / `%s = $%d` with the value passed through the quoting function; the group-by list is joined by ',' after ';'. " +
 			"NOT decided: the round-trip equality itself and the fixpoint of format∘parse (string values; need the parser's language, see C09).",
 		assumptions: []string{"the generated getters return the oneof member or nil", "go/ssa CFG"},
 	})
@@ -184,6 +184,7 @@ func runC10(c *Ctx) {
 		}
 	}
 	c10Quote(c, kindFmt)
+	unquoteRule(c, "C10.unquote")
 }
 
 // matchSeq: ev consists of groups "ORC" (strict) or of "ORC" and bare "R" (non-strict).
@@ -525,4 +526,122 @@ func c10Quote(c *Ctx, kindFmt map[string]*ssa.Function) {
 		}
 	})
 	c.r.check(okGB && semi, rule, safeFname(c.a.QueryToString)+": group-by", "`; ` followed by the group-by columns joined by ','", "the group-by list is not written as ';' followed by the columns joined by ','", c.w.pos(c.a.QueryToString.Pos()))
+}
+
+// unquoteRule: the parser's string decoder removes exactly one character at each end of the token before undoing the
+// quote doubling. The value handed to the inverse ReplaceAll must derive from the token only through: s[1:], s[:len(s)-1],
+// s[1:len(s)-1], strings.TrimPrefix/TrimSuffix(s, `"`) and phis of those. Anything else (strings.Trim, TrimLeft/Right,
+// TrimFunc, further replacements …) can eat an escaped quote adjacent to the delimiters.
+func unquoteRule(c *Ctx, rule string) {
+	var dec *ssa.Call
+	for _, fn := range c.w.ModFuncs {
+		if c.w.pkgPathOf(fn) != pkgParser {
+			continue
+		}
+		allInstrs(fn, func(i ssa.Instruction) {
+			if call, ok := i.(*ssa.Call); ok && calleeName(&call.Call) == "strings.ReplaceAll" {
+				a, ok1 := constString(call.Call.Args[1])
+				b, ok2 := constString(call.Call.Args[2])
+				if ok1 && ok2 && a == `""` && b == `"` {
+					dec = call
+				}
+			}
+		})
+	}
+	if dec == nil {
+		c.r.undecided(rule, "parser: string decoder", "no ReplaceAll(s, `\"\"`, `\"`) found in the parser package")
+		return
+	}
+	fn := dec.Parent()
+	if len(fn.Params) != 1 {
+		c.r.undecided(rule, safeFname(fn), "decoder with an unexpected signature", c.w.pos(fn.Pos()))
+		return
+	}
+	src := ssa.Value(fn.Params[0])
+	bad := ""
+	seen := map[ssa.Value]bool{}
+	var visit func(v ssa.Value)
+	visit = func(v ssa.Value) {
+		if seen[v] || bad != "" {
+			return
+		}
+		seen[v] = true
+		if v == src {
+			return
+		}
+		switch x := v.(type) {
+		case *ssa.Phi:
+			for _, e := range x.Edges {
+				visit(e)
+			}
+		case *ssa.Slice:
+			lowOK := x.Low == nil
+			if k, ok := constInt(x.Low); x.Low != nil && ok && k == 1 {
+				lowOK = true
+			}
+			highOK := x.High == nil
+			if x.High != nil {
+				hb, ho := lin(x.High)
+				if ho == -1 && isLenOfChain(hb, src) {
+					highOK = true
+				}
+			}
+			if !lowOK || !highOK || (x.Low == nil && x.High == nil) {
+				bad = "a re-slice that does not remove exactly one character at an end"
+				return
+			}
+			visit(x.X)
+		case *ssa.Call:
+			switch calleeName(&x.Call) {
+			case "strings.TrimPrefix", "strings.TrimSuffix":
+				if s, ok := constString(x.Call.Args[1]); ok && s == `"` {
+					visit(x.Call.Args[0])
+					return
+				}
+				bad = "TrimPrefix/TrimSuffix with something other than one quote"
+			default:
+				bad = "a call to " + shortName(calleeName(&x.Call))
+			}
+		default:
+			bad = "an unrecognised transformation"
+		}
+	}
+	visit(dec.Call.Args[0])
+	c.r.check(bad == "", rule, safeFname(fn), "exactly one delimiter is removed at each end before the doubling is undone",
+		"before undoing the quote doubling the decoder applies "+bad+": escaped quotes next to the delimiters (e.g. `\"x\"\"\"`, `\"\"\"\"`) are lost and the value differs from what the grammar prescribes", c.w.ipos(dec))
+}
+
+// isLenOfChain: v is len(x) where x derives from src through the accepted re-slices/phis.
+func isLenOfChain(v, src ssa.Value) bool {
+	call, ok := peelConv(v).(*ssa.Call)
+	if !ok {
+		return false
+	}
+	if b, ok := call.Call.Value.(*ssa.Builtin); !ok || b.Name() != "len" {
+		return false
+	}
+	x := call.Call.Args[0]
+	for n := 0; n < 8; n++ {
+		if x == src {
+			return true
+		}
+		switch y := x.(type) {
+		case *ssa.Phi:
+			// any edge
+			for _, e := range y.Edges {
+				if e == src {
+					return true
+				}
+				if sl, ok := e.(*ssa.Slice); ok && sl.X == src {
+					return true
+				}
+			}
+			return false
+		case *ssa.Slice:
+			x = y.X
+		default:
+			return false
+		}
+	}
+	return false
 }
